@@ -329,12 +329,12 @@ func checkC03(tier string, seed int64) int {
 	// parser recursion is bounded by the implementation, not by the host's stack (one inductive step, depth symbolic)
 	{
 		nagg := NewAgg()
-		res := c.runLemmaHarnesses([]string{"verifH_C03_depth_guard"}, "z3", nagg)
+		res := c.runLemmaHarnesses([]string{"verifH_C03_depth_guard", "verifH_C03_type_depth_guard"}, "z3", nagg)
 		c.confirmLemmaFailures(res, func(id string) string {
-			return "parser recursion is not bounded: " + strings.TrimPrefix(id, "C03/depth-guard/")
+			return "parser recursion is not bounded: " + strings.TrimPrefix(strings.TrimPrefix(id, "C03/depth-guard/"), "C03/")
 		})
 		nagg.Into(c, "depth_guard_")
-		c.Assumption("depth-guard lemma: parser.Expression is entered once per nesting level (Statement, Block, every Nud/Led recurse through it — by reading parse.go/symbol.go) and parser.Depth counts its active frames; from an arbitrary symbolic depth d one more level is parsed: the counter is restored on return, ordinary depths (< 1000) are accepted, and depths ≥ 4e6 (beyond what a 1 GB Go stack survived in native runs: 1e6 levels passed, 5e6 died) are refused. Operator / else-if chains (parsed by iteration, walked by the compiler's recursion) need inputs of ≥ 1e5 tokens and are outside what the engine reaches; the tree-depth bound added to parse() for them was checked natively only")
+		c.Assumption("depth-guard lemmas: parser.Expression is entered once per nesting level of expressions and blocks (Statement, Block, every Nud/Led recurse through it — by reading parse.go/symbol.go) and getType once per nesting level of type expressions and parser.Depth counts its active frames; from an arbitrary symbolic depth d one more level is parsed: the counter is restored on return, ordinary depths (< 1000) are accepted, and depths ≥ 4e6 (beyond what a 1 GB Go stack survived in native runs: 1e6 levels passed, 5e6 died) are refused. Operator / else-if chains (parsed by iteration, walked by the compiler's recursion) need inputs of ≥ 1e5 tokens and are outside what the engine reaches; the tree-depth bound added to parse() for them was checked natively only")
 	}
 	// awkward directory contents: the package search terminates and errors carry a stage prefix
 	{
